@@ -33,6 +33,15 @@ pub const TEMPLATES: &[(&str, &str, &str)] = &[
     ("res-unknown-name-in-sstring-after-2-byte-text", "resolver", "from t | select {a, b} | derive x = s\"é + {⟦zz⟧}\""),
     ("res-unknown-name-in-fstring-after-multibyte-text", "resolver", "from t | select {a, b} | derive x = f\"éé 中{⟦zz⟧} 🐢\""),
     ("res-unknown-name-in-fstring-second-hole", "resolver", "from t | select {a, b} | derive x = f\"« {a} » n° {⟦zz⟧}\""),
+    // the same behind the other spellings of an interpolated string: triple quotes, an escape sequence
+    // before the hole (the text of the literal is longer than its value), single quotes
+    ("res-unknown-name-in-triple-quoted-sstring", "resolver", "from t | select {a, b} | derive x = s\"\"\"abs + {⟦zz⟧}\"\"\""),
+    ("res-unknown-name-in-triple-quoted-fstring-after-2-byte-text", "resolver", "from t | select {a, b} | derive x = f\"\"\"é{⟦zz⟧}\"\"\""),
+    ("res-unknown-name-in-sstring-after-escape", "resolver", "from t | select {a, b} | derive x = s\"\\t\\t + {⟦zz⟧}\""),
+    ("res-unknown-name-in-fstring-after-escape-and-2-byte-text", "resolver", "from t | select {a, b} | derive x = f\"\\n€{⟦zz⟧}\""),
+    ("res-unknown-name-in-single-quoted-sstring", "resolver", "from t | select {a, b} | derive x = s'abs + {⟦zz⟧}'"),
+    ("syn-bad-hole-in-triple-quoted-sstring", "parser", "from t | select {a = s\"\"\"abc {b⟦ ⟧c}\"\"\"}"),
+    ("syn-bad-hole-in-sstring-after-escape", "parser", "from t | select {a = s\"\\t\\t{b⟦ ⟧c}\"}"),
     ("res-ambiguous", "resolver", "from t | select {a, b} | join r=(from u | select {a, d}) (==a) | filter ⟦a⟧ > 1"),
     ("res-too-many-args", "resolver", "from t | ⟦take 1 2⟧"),
     ("res-unknown-named-arg", "resolver", "from t | ⟦sort nope:1 {a}⟧"),
@@ -458,7 +467,12 @@ pub fn run(tier: Tier) -> i32 {
         for (k, m) in bad {
             // cause: byte offsets used as character offsets — only arises with multi-byte text before the site
             let multibyte_before = PADDINGS[spec.padding].1.chars().any(|c| c.len_utf8() > 1);
-            let key = if multibyte_before && (k.starts_with("span-misses-offending-text") || k == "span-outside-source" || k == "location-is-not-position-of-span" || k == "display-does-not-quote-the-line" || k.starts_with("panic@prqlc/prqlc/src/error_message.rs")) && stage != "lexer" {
+            // cause: positions inside an interpolated string are computed as (start of the literal + 2 + offset in the
+            // *value*): right only for one-character delimiters and text without escape sequences
+            let spelled = tn.contains("triple-quoted") || tn.contains("after-escape");
+            let key = if spelled && (k.starts_with("span-misses-offending-text") || k == "span-splits-a-character" || k == "span-outside-source" || k == "location-is-not-position-of-span" || k == "display-does-not-quote-the-line") {
+                "interpolation-span-ignores-delimiter-length-and-escapes".to_string()
+            } else if multibyte_before && (k.starts_with("span-misses-offending-text") || k == "span-outside-source" || k == "location-is-not-position-of-span" || k == "display-does-not-quote-the-line" || k.starts_with("panic@prqlc/prqlc/src/error_message.rs")) && stage != "lexer" {
                 "byte-offset-span-used-as-character-offset".to_string()
             } else {
                 k
